@@ -98,6 +98,21 @@ func EnvTurn() {
 	s.block(&op{kind: kSimple, desc: "env-turn", pure: true})
 }
 
+// EnvQuiesce is EnvTurn for big-step harnesses (added for C12): the calling environment goroutine
+// is charged one early injection whenever a non-environment transition is enabled, EVEN IF it still
+// holds the run token (EnvTurn lets an environment goroutine that keeps the token continue for free,
+// so that it may fire several events back to back). With early-injection budget 0 the call therefore
+// returns only when the system is quiescent: every operation the caller started before has been
+// driven as far as it can go.
+func EnvQuiesce() {
+	s := active
+	if s == nil {
+		runtime.Gosched()
+		return
+	}
+	s.block(&op{kind: kSimple, desc: "env-quiesce", pure: true, strict: true})
+}
+
 // Steps returns the number of transitions taken so far in this execution.
 func Steps() int {
 	if s := active; s != nil {
